@@ -333,7 +333,8 @@ def generate_transformation(angmom, cartesian_order, spherical_order, apply_from
             transform[order[components], i] = sign * coeff
 
     # normalize
-    transform *= np.sqrt(np.prod(factorial2(2 * cartesian_order - 1), axis=1))[:, np.newaxis]
+    # signed arithmetic: 2 * 0 - 1 wraps around for an unsigned component array
+    transform *= np.sqrt(np.prod(factorial2(2 * cartesian_order.astype(int) - 1), axis=1))[:, np.newaxis]
     transform /= np.sqrt(factorial2(2 * angmom - 1))
 
     if apply_from == "left":
